@@ -215,11 +215,14 @@ PickLoc == IF DOMAIN byPath # {} /\ Chance(88) THEN RandomElement(DOMAIN byPath)
 SimNext ==
   \/ \E w \in 1..3 : \E src \in {RandomElement(Srcs)}, key \in {PickKey}, p \in {RandomElement(RegProfiles)},
                         var \in {PickVar(RegVars)} : Register(src, key[1], key[2], p, var)
-  \/ \E w \in 1..3 : \E src \in {RandomElement(Srcs)}, loc \in {PickLoc}, u \in {RandomElement(UpdProfiles)},
+  \/ \E w \in 1..3 : (byPath # << >> \/ Chance(5)) /\
+                      \E src \in {RandomElement(Srcs)}, loc \in {PickLoc}, u \in {RandomElement(UpdProfiles)},
                         var \in {PickVar(UpdVars)} : UpdatePost(src, loc, u, var)
-  \/ \E w \in 1..1 : \E src \in {RandomElement(Srcs)}, loc \in {PickLoc}, u \in {RandomElement(PutProfiles)},
+  \/ \E w \in 1..1 : (byPath # << >> \/ Chance(5)) /\
+                      \E src \in {RandomElement(Srcs)}, loc \in {PickLoc}, u \in {RandomElement(PutProfiles)},
                         var \in {PickVar(PutVars)} : UpdatePut(src, loc, u, var)
-  \/ \E w \in 1..1 : \E src \in {RandomElement(Srcs)}, loc \in {PickLoc} : Delete(src, loc)
+  \/ \E w \in 1..1 : (byPath # << >> \/ Chance(5)) /\
+                      \E src \in {RandomElement(Srcs)}, loc \in {PickLoc} : Delete(src, loc)
   \/ \E w \in 1..4 : \E n \in {RandomElement(Adv)} : Tick(n)
   \/ \E n \in Adv : budget = 0 /\ Tick(n)      \* let the remaining lifetimes run out
 
